@@ -36,7 +36,11 @@ const (
 )
 
 var kindNames = []string{"HonoursRange", "IgnoresRange", "RejectsRange"}
-var connNames = []string{"CServe", "CErr", "CStatus"}
+var connNames = []string{"CServe", "CErr", "CStatus", "(CServeAs HonoursRange)", "(CServeAs IgnoresRange)", "(CServeAs RejectsRange)"}
+
+// noLen marks a connection whose response does not announce its length (ContentLength = -1);
+// the current reader ignores the length, so the model has no such notion
+const noLen = 1 << 8
 
 func genData(seed, n int) []byte {
 	b := make([]byte, n)
@@ -112,9 +116,20 @@ func (e *env) RoundTrip(req *http.Request) (*http.Response, error) {
 		c = e.conns[0]
 		e.conns = e.conns[1:]
 	}
+	unknownLen := c&noLen != 0
+	c &^= noLen
+	kind := e.kind
+	if c >= 3 {
+		kind = c - 3
+		c = cServe
+	}
 	mk := func(code int, body []byte) *http.Response {
+		cl := int64(len(body))
+		if unknownLen {
+			cl = -1
+		}
 		return &http.Response{StatusCode: code, Status: strconv.Itoa(code), Proto: "HTTP/1.1", ProtoMajor: 1, ProtoMinor: 1,
-			Header: http.Header{}, Body: &sbody{e: e, rest: body}, ContentLength: int64(len(body)), Request: req}
+			Header: http.Header{}, Body: &sbody{e: e, rest: body}, ContentLength: cl, Request: req}
 	}
 	switch c {
 	case cErr:
@@ -125,7 +140,7 @@ func (e *env) RoundTrip(req *http.Request) (*http.Response, error) {
 	if off == -1 {
 		return mk(200, e.data), nil
 	}
-	switch e.kind {
+	switch kind {
 	case 0:
 		if off >= 0 && off < len(e.data) {
 			return mk(206, e.data[off:]), nil
@@ -181,7 +196,7 @@ func galReads(rs []rdEv) string {
 func galConns(cs []int) string {
 	it := make([]string, len(cs))
 	for i, c := range cs {
-		it[i] = connNames[c]
+		it[i] = connNames[c&^noLen]
 	}
 	return gal.List(it)
 }
@@ -233,7 +248,13 @@ func scriptedCase(w *gal.Writer, kind, dseed, dlen int, reads []rdEv, conns []in
 			nf++
 		}
 	}
-	class := fmt.Sprintf("%s/faults=%d/conn-events=%d", kindNames[kind], min(nf, 4), min(len(conns), 3))
+	mixed := ""
+	for _, c := range conns {
+		if c&^noLen >= 3 {
+			mixed = "/mixed-backends"
+		}
+	}
+	class := fmt.Sprintf("%s/faults=%d/conn-events=%d%s", kindNames[kind], min(nf, 4), min(len(conns), 3), mixed)
 	w.Add(gal.Case{Term: term, Class: class, Trivial: nf == 0 && len(conns) == 0,
 		Desc: scase{kindNames[kind], dseed, dlen, reads, conns, bufs, opened, len(outs)}})
 }
@@ -259,6 +280,12 @@ func scriptedStage(dir string, seed uint64, tier string) error {
 		scriptedCase(w, kind, 1, 0, nil, nil, fill(2, 4))                                                                // empty body
 		scriptedCase(w, kind, 1, 13, nil, []int{cErr}, fill(2, 4))                                                       // open fails
 		scriptedCase(w, kind, 1, 13, []rdEv{{13, false, true}}, nil, fill(3, 32))                                        // eager EOF
+		// a 200 restart whose discard is cut, followed by a 206 resume (backends of different kinds)
+		scriptedCase(w, kind, 4, 40, []rdEv{{10, false, false}, {0, true, false}, {4, true, false}, {0, true, false}}, []int{cServe, 4, 3, 3}, fill(8, 10))
+		scriptedCase(w, kind, 4, 40, []rdEv{{10, false, false}, {0, true, false}, {4, true, false}}, []int{cServe | noLen, 4, 3 | noLen}, fill(8, 10))
+		// unknown length on the first response, two faults, the second late
+		scriptedCase(w, kind, 4, 40, []rdEv{{12, false, false}, {0, true, false}, {20, false, false}, {0, true, false}}, []int{cServe | noLen, cServe, cServe}, fill(8, 20))
+		scriptedCase(w, kind, 4, 40, []rdEv{{30, false, false}, {0, true, false}, {5, false, false}, {0, true, false}}, []int{cServe | noLen, cServe | noLen, cServe}, fill(8, 40))
 		scriptedCase(w, kind, 2, 9000, []rdEv{{8500, false, false}, {0, true, false}, {100, false, false}, {8192, false, false}}, nil, fill(4, 8600)) // discard > 8192
 		scriptedCase(w, kind, 2, 9000, []rdEv{{8500, false, false}, {0, true, false}, {100, false, false}, {50, true, false}}, nil, fill(4, 8600))   // failure while discarding
 	}
@@ -280,9 +307,9 @@ func scriptedStage(dir string, seed uint64, tier string) error {
 	}
 	// random
 	r := gal.NewRand(seed)
-	n := 500
+	n := 900
 	if tier == "thorough" {
-		n = 6000
+		n = 9000
 	}
 	for i := 0; i < n; i++ {
 		kind := r.Intn(3)
@@ -300,6 +327,11 @@ func scriptedStage(dir string, seed uint64, tier string) error {
 			c := cServe
 			if r.Chance(1, 4) {
 				c = 1 + r.Intn(2)
+			} else if r.Chance(1, 3) {
+				c = 3 + r.Intn(3)
+			}
+			if r.Chance(1, 4) {
+				c |= noLen
 			}
 			conns = append(conns, c)
 		}
